@@ -37,7 +37,15 @@ def call(f, first):
         elif p.kind == p.KEYWORD_ONLY and p.default is p.empty:
             kwargs[p.name] = None
     try:
-        f(first, *args, **kwargs)
+        r = f(first, *args, **kwargs)
+        if inspect.iscoroutine(r):
+            # drive the coroutine to completion (the generated awaitables never suspend)
+            try:
+                for _ in range(1000):
+                    r.send(None)
+                r.close()
+            except StopIteration:
+                pass
     except Exception:
         pass
 
@@ -233,13 +241,15 @@ class Texts(object):
                 out.setdefault(n, []).append(line)
         return out
 
-    def self_sites(self, rel, name):
+    def self_sites(self, rel, name, only_async=False):
         """{attr: [lines]} of assignments ``<first param>.attr = ...`` in functions of the class body."""
         out = {}
         cd = self.classdef(rel, name)
         if cd is None:
             return out
         for st in cd.body:
+            if only_async and not isinstance(st, ast.AsyncFunctionDef):
+                continue
             if not isinstance(st, (ast.FunctionDef, ast.AsyncFunctionDef)) or not st.args.args:
                 continue
             first = st.args.args[0].arg
@@ -334,6 +344,14 @@ class Texts(object):
                     return True
         return False
 
+    def insert_in_async_method(self, rel, clsname, line):
+        """is the statement that precedes insertion line `line` inside an ``async def`` of class clsname?"""
+        cd = self.classdef(rel, clsname) if clsname else None
+        for st in (cd.body if cd is not None else []):
+            if isinstance(st, ast.AsyncFunctionDef) and st.lineno <= line - 1 <= (st.end_lineno or st.lineno):
+                return True
+        return False
+
     def def_line(self, rel, qualname):
         for n in self.tree(rel).body:
             if isinstance(n, (ast.FunctionDef, ast.ClassDef)) and n.name == qualname:
@@ -384,6 +402,8 @@ def no_proposals_label(texts, q, kind):
     if not q['insert'] and texts.package_rebound_by_star(q['file'], q['expr']):
         # one mechanism whatever the query kind: `import P.M` made P.M visible, a later star import re-binds P
         return 'no-proposals:package-name-rebound-by-later-star-import'
+    if q['insert'] and texts.insert_in_async_method(q['file'], q.get('cls'), q['insert']['line']):
+        return 'no-proposals:%s:in-async-method' % kind
     return 'no-proposals:%s:via=%s' % (kind, q['via'])
 
 
@@ -476,6 +496,7 @@ def check_query(part, project, root, q, desc, only_attr=None):
 
     required = {}      # attr -> ('inst'|'class', mro index of the defining class or None)
     filtered_builtin = 0
+    async_only = set()  # instance attributes all of whose `self.x =` sites are inside async def methods
     builtin_first = {}  # attr -> (builtin class selected by the MRO, source classes later on the MRO binding it)
     names = set()
     for k in mro_src:
@@ -487,6 +508,13 @@ def check_query(part, project, root, q, desc, only_attr=None):
         if desc['type'] == 'instance' and n in inst and not data_desc:
             if n in self_sites:
                 required[n] = ('inst', None)
+                asites = set((k['file'], ln) for k in mro_src
+                             for ln in texts.self_sites(k['file'], k['name'], only_async=True).get(n, ()))
+                if asites:
+                    part.count('required_instance_attrs_assigned_in_async_methods')
+                    if asites == self_sites[n]:
+                        part.count('required_instance_attrs_assigned_ONLY_in_async_methods')
+                        async_only.add(n)
             else:
                 part.count('instance_attrs_without_source_site(filtered)')
             continue
@@ -522,7 +550,9 @@ def check_query(part, project, root, q, desc, only_attr=None):
             own = any(s[0] == mro_src[0]['file'] and n in texts.self_sites(mro_src[0]['file'], mro_src[0]['name'])
                       for s in self_sites[n])
             where = 'instance-attr:own-method' if own else 'instance-attr:base-method'
-            if any(texts.reentrant_shape(k['file'], k['name']) for k in mro_src):
+            if n in async_only:
+                where += '+assigned-only-in-async-methods'
+            elif any(texts.reentrant_shape(k['file'], k['name']) for k in mro_src):
                 where += '+class-with-setter-or-alias-assignment'
         else:
             i = mro_src.index(mro[first])
@@ -634,7 +664,9 @@ def check_query(part, project, root, q, desc, only_attr=None):
         mech = None
         if not got:
             mech = 'no-location:%s' % expcat
-            if expcat == 'self-assign' and any(texts.reentrant_shape(k['file'], k['name']) for k in mro_src):
+            if n in async_only:
+                mech += '+assigned-only-in-async-methods'
+            elif expcat == 'self-assign' and any(texts.reentrant_shape(k['file'], k['name']) for k in mro_src):
                 mech += '+class-with-setter-or-alias-assignment'
         else:
             cats = set()
@@ -668,6 +700,8 @@ def check_query(part, project, root, q, desc, only_attr=None):
                 else:
                     cat = 'self-assign(never executed)'
             mech = '%s->%s' % (expcat, cat)
+            if n in async_only:
+                mech += '+assigned-only-in-async-methods'
         viol(part, '%s:%s' % (group, mech),
                        '`%s.%s` (%s, %s): expected %s; supp lands on %s' % (q['expr'], n, kind, q['sub'], exp_desc, got or result),
                        case({'check': 'location', 'attr': n}))
@@ -767,6 +801,11 @@ def check_project(part, project, root, oracle, key, only=None):
     nontrivial = False
     for f in project.get('meta', {}).get('features', []):
         part.hist('features', f)
+    meta = project.get('meta', {})
+    for k in ('n_classes', 'n_function_members', 'n_async_methods', 'n_async_methods_assigning',
+              'n_classes_with_async_method'):
+        if meta.get(k):
+            part.count('generated_' + k[2:], meta[k])
     for f in project.get('meta', {}).get('import_forms', []):
         part.hist('import_forms_in_project', f)
     for q in project['queries']:
